@@ -338,16 +338,24 @@ def _accounting_problem(cfg, model, k, per_request):
     shown = set()
     for got in per_request:
         for r in got:
-            vs = M.values_in_result(kind, r)
+            try:
+                vs = M.values_in_result(kind, r)
+            except TypeError:       # not a result of this element at all (e.g. a bare flow value)
+                return ("result-of-another-shape", {"per_request": per_request},
+                        "results of the wrapped element")
             if vs is None:
                 return None
-            if len(set(vs)) != len(vs) or vs != sorted(vs):
+            try:
+                regular = len(set(vs)) == len(vs) and vs == sorted(vs)
+            except TypeError:       # values of another kind than the ones fed (a result shown as a value)
+                regular = False
+            if not regular:
                 return ("value-twice-or-out-of-order-in-one-result", {"per_request": per_request},
                         "each result shows distinct values in flow order")
             shown.update(vs)
     fed = model.fed[:k]
     missing = [v for v in fed if v not in shown]
-    foreign = sorted(v for v in shown if v not in fed)
+    foreign = sorted((v for v in shown if v not in fed), key=repr)
     if missing or foreign:
         return ("value-never-shown", {"per_request": per_request, "missing": missing, "foreign": foreign},
                 {"all of": fed})
